@@ -121,7 +121,11 @@ def stmt(s, inc_names, indent=""):
         out.append(indent + "\t}")
         return out
     if k == "include":
-        return [indent + f'\t.include "{inc_names[s["f"] - 1]}.mac"']
+        nm = inc_names[s["f"] - 1]
+        if "c" in s:                  # the digit of the name written as <symbol>: "i" <sx> ".mac"
+            q = max(i for i, ch in enumerate(nm) if ch.isdigit())
+            return [indent + f'\t.include "{nm[:q]}" <{s["c"]}> "{nm[q + 1:]}.mac"']
+        return [indent + f'\t.include "{nm}.mac"']
     raise MachineryError(f"unknown statement {s}")
 
 
